@@ -151,7 +151,10 @@ pub fn main(args: &[String]) -> i32 {
         if verbose {
             dflt_hook(info);
         }
-        if may::verif::cur_vid() == 0 && !crate::ctrl::is_actor_thread() && std::thread::current().name() != Some("main") {
+        // (a helper thread of a scenario that panics on purpose - e.g. to poison a lock - is recognised by the
+        // location of the panic: harness code, not the code under test)
+        let in_harness = info.location().map_or(false, |l| l.file().starts_with("src/scen") || l.file().contains("verif/harness"));
+        if may::verif::cur_vid() == 0 && !crate::ctrl::is_actor_thread() && !in_harness && std::thread::current().name() != Some("main") {
             let msg = info.payload().downcast_ref::<&str>().map(|s| s.to_string()).or_else(|| info.payload().downcast_ref::<String>().cloned()).unwrap_or_default();
             let loc = info.location().map(|l| format!("{}:{}", l.file(), l.line())).unwrap_or_default();
             let mut g = RUNTIME_PANIC.lock().unwrap_or_else(|p| p.into_inner());
